@@ -544,3 +544,45 @@ func readerLimitRule(w *World, r *Report, rule string) {
 	r.add(rule, nil, "order comparisons in the reading code", token.NoPos, "ok", fmt.Sprintf("%d comparisons examined", n))
 	r.floor(rule, "order comparisons in the reading code", n, 3)
 }
+
+// atomSiteRule: what a single token means is decided in one place, the atom reader, case by case on the token's
+// type - the cases the printer's forms are matched against. No other function of the reader turns token text
+// into a number, a string, a boolean or nil: an identifier token that the dispatcher decodes on its own (an
+// explicit plus sign, say) is a symbol the printer writes bare and the reader no longer gives back.
+func atomSiteRule(w *World, r *Report, rule string) {
+	r.rule(rule, "among the parsing functions of the reader only the atom reader (and the functions it is built from) returns values of basic Go kinds - int, float, string, bool - boxed from what it decoded: the dispatcher and the collection readers hand back what the functions they call returned, or collections built from it")
+	ra := w.Fn("reader", "read_atom")
+	if ra == nil {
+		r.undecided(rule, nil, "read_atom", token.NoPos, "function no longer resolves")
+		return
+	}
+	atomFns := map[*ssa.Function]bool{}
+	for _, f := range w.withPkgHelpers(ra) {
+		atomFns[f] = true
+	}
+	n := 0
+	for _, fn := range w.pkgFuncs("reader") {
+		if !isReaderFn(fn) || atomFns[fn] {
+			continue
+		}
+		for _, rt := range (&evalModel{}).returns(fn) {
+			ret := rt[0].(*ssa.Return)
+			v, _ := rt[1].(ssa.Value)
+			if v == nil {
+				continue
+			}
+			n++
+			mi, ok := v.(*ssa.MakeInterface)
+			if !ok {
+				continue
+			}
+			if bt, isBasic := mi.X.Type().Underlying().(*types.Basic); isBasic && bt.Kind() != types.UntypedNil {
+				if _, isConst := mi.X.(*ssa.Const); isConst {
+					continue // a fixed value, not something decoded from the token
+				}
+				r.bad(rule, fn, "basic value decoded outside the atom reader", ret.Pos(), w.fnName(fn)+" returns a "+bt.Name()+" it decoded itself: the token would otherwise have been read by the atom reader (as a symbol, typically), which is how the printer's output for that value is read back - values the printer writes as that token no longer round-trip")
+			}
+		}
+	}
+	r.floor(rule, "returns of the reader's parsing functions outside the atom reader", n, 10)
+}
